@@ -9,6 +9,7 @@ import datetime
 import itertools
 import os
 import signal
+import sys
 
 from . import env
 
@@ -52,8 +53,24 @@ class alarm:
 CALL_TIMEOUT = float(os.environ.get('VF_CALL_TIMEOUT', '30'))
 
 
+STACK_ROOM = 1000
+
+
+def _stack_depth():
+    f = sys._getframe(1)
+    n = 0
+    while f is not None:
+        n += 1
+        f = f.f_back
+    return n
+
+
 def outcome(fn, *a, timeout=None, **kw):
-    """('value', v) | ('lib', ExcName, msg) | ('foreign', ExcName, msg) | ('timeout',)"""
+    """('value', v) | ('lib', ExcName, msg) | ('foreign', ExcName, msg) | ('timeout',)
+    The product always gets the same stack room (STACK_ROOM frames below the call), whatever called the harness: whether a
+    deep formula hits the recursion limit must not depend on search vs replay."""
+    old_limit = sys.getrecursionlimit()
+    sys.setrecursionlimit(_stack_depth() + STACK_ROOM)
     try:
         with alarm(timeout or CALL_TIMEOUT):
             return ('value', fn(*a, **kw))
@@ -65,6 +82,8 @@ def outcome(fn, *a, timeout=None, **kw):
         return ('lib', type(e).__name__, str(e)[:300])
     except BaseException as e:  # noqa
         return ('foreign', type(e).__name__, str(e)[:300])
+    finally:
+        sys.setrecursionlimit(old_limit)
 
 
 def enc(v):
